@@ -118,6 +118,10 @@ func (fd *folder) fold(f *ssa.Function, args []cval) foldResult {
 				return cval{kind: "bool", b: constant.BoolVal(x.Value)}, ""
 			}
 		case *ssa.Global:
+			// a package-level error value (var ErrX = errors.New(...)): an opaque non-nil error
+			if pt, ok := x.Type().Underlying().(*types.Pointer); ok && isErrorType(pt.Elem()) {
+				return cval{kind: "err", s: globalName(x)}, ""
+			}
 			// address of a table: represented by its value
 			tv := tables.Val(x)
 			if tv == nil {
@@ -650,6 +654,11 @@ func foldMapLookup(tv *TableVal, k cval, resT types.Type, commaOk bool) (cval, b
 }
 
 func foldBin(x *ssa.BinOp, l, r cval) (cval, string, string) {
+	// comparisons of error values with nil (and with each other by identity)
+	if (l.kind == "err" || l.kind == "nil") && (r.kind == "err" || r.kind == "nil") && (x.Op == token.EQL || x.Op == token.NEQ) {
+		eq := l.kind == r.kind && l.s == r.s
+		return cval{kind: "bool", b: eq == (x.Op == token.EQL)}, "", ""
+	}
 	if l.kind == "int" && r.kind == "int" {
 		a, b := l.i, r.i
 		uns := isUnsigned(x.X.Type())
